@@ -277,10 +277,9 @@ theorem lastCookieL_append (a b : Dir) (hb : b ≠ []) : lastCookieL (a ++ b) = 
 
 /-- the scan once the target record has been consumed: the next batch is the reply -/
 theorem scan_found {H : Host} (wf : WF H.dir) (hq : H.eofQuirk = false) {size offset : Nat} {rest0 : Dir}
-    (hall : ∀ e ∈ H.dir, reclen e ≤ size) (fuel : Nat) (fd : Fd)
-    (hp : Pos H.dir fd.pos rest0) (hsub : ∀ e ∈ rest0, e ∈ H.dir) :
+    (hfit : ∀ e r, rest0 = e :: r → reclen e ≤ size) (fuel : Nat) (fd : Fd)
+    (hp : Pos H.dir fd.pos rest0) :
     ∃ b fd', scan H size offset (fuel + 1) fd true = (.ok b, fd') ∧ Post H.dir rest0 b fd' := by
-  have hfit : ∀ e r, rest0 = e :: r → reclen e ≤ size := fun e r h => hall e (hsub e (by simp [h]))
   obtain ⟨b, t', fd', hg, ht, hp2, hb, hl⟩ := gdFd wf hq hp hfit
   unfold scan
   rw [hg]
@@ -299,25 +298,38 @@ theorem scan_found {H : Host} (wf : WF H.dir) (hq : H.eofQuirk = false) {size of
     refine ⟨b, fd', rfl, ⟨⟨[], t', by simp [ht], rfl, hp2, fun h => absurd h (by rw [hbe]; simp)⟩, hl⟩⟩
 
 theorem scan_post {H : Host} (wf : WF H.dir) (hq : H.eofQuirk = false) {size offset : Nat} {rest0 pre : Dir}
-    {tgt : HEnt} (hall : ∀ e ∈ H.dir, reclen e ≤ size)
+    {tgt : HEnt} (hpre : ∀ x ∈ pre ++ [tgt], reclen x ≤ size) (hfit0 : ∀ e r, rest0 = e :: r → reclen e ≤ size)
     (htgt : H.dir = pre ++ tgt :: rest0) (hc : tgt.cookie = offset) :
     ∀ (fuel : Nat) (fd : Fd) (consumed t : Dir), H.dir = consumed ++ t → Pos H.dir fd.pos t →
       (∀ x ∈ consumed, x.cookie ≠ offset) → t.length + 2 ≤ fuel →
       ∃ b fd', scan H size offset fuel fd false = (.ok b, fd') ∧ Post H.dir rest0 b fd' := by
-  have hsub0 : ∀ e ∈ rest0, e ∈ H.dir := fun e he => by rw [htgt]; simp [he]
   intro fuel
   induction fuel with
   | zero => intro fd consumed t _ _ _ h; omega
   | succ fuel ih =>
     intro fd consumed t hd hp hcons hfuel
-    have hfit : ∀ e r, t = e :: r → reclen e ≤ size := fun e r h => hall e (by rw [hd, h]; simp)
-    obtain ⟨b, t2, fd2, hg, ht, hp2, hb, hl⟩ := gdFd wf hq hp hfit
-    -- the target is still ahead, so the batch is not empty
+    -- the target is still ahead
     have htin : tgt ∈ t := by
       have : tgt ∈ consumed ++ t := by rw [← hd, htgt]; simp
       rcases List.mem_append.mp this with h | h
       · exact absurd hc (hcons tgt h)
       · exact h
+    -- so the next record is the target or one before it: it fits
+    have hfit : ∀ e r, t = e :: r → reclen e ≤ size := by
+      intro e r h
+      rw [h] at htin
+      rcases List.mem_cons.mp htin with h1 | h1
+      · rw [← h1]; exact hpre tgt (by simp)
+      · obtain ⟨r1, r2, hr⟩ := List.append_of_mem h1
+        have hd2 : H.dir = (consumed ++ e :: r1) ++ tgt :: r2 := by rw [hd, h, hr]; simp
+        have hr2 : r2 = rest0 := decomp_unique wf.nodup hd2 htgt rfl
+        have hpe : consumed ++ e :: r1 = pre := by
+          have h3 := hd2.symm.trans htgt
+          rw [hr2] at h3
+          exact List.append_cancel_right h3
+        exact hpre e (by rw [← hpe]; simp)
+    obtain ⟨b, t2, fd2, hg, ht, hp2, hb, hl⟩ := gdFd wf hq hp hfit
+    -- …and the batch is not empty
     have hbne : b ≠ [] := by
       intro hbe
       rw [hb hbe] at htin
@@ -355,7 +367,7 @@ theorem scan_post {H : Host} (wf : WF H.dir) (hq : H.eofQuirk = false) {size off
         cases fuel with
         | zero => omega
         | succ f =>
-          apply scan_found wf hq hall f fd2 _ hsub0
+          apply scan_found wf hq hfit0 f fd2 _
           rw [← hr0]; exact hp2
       | cons x xs =>
         simp only [List.isEmpty_cons, Bool.not_false, if_true]
